@@ -241,6 +241,7 @@ Proof.
     + intros. apply IH. cbn [no_del] in Hd |- *. apply andb_prop in Hd as [H1 H2]. rewrite ?H1, ?H2. reflexivity.
   - (* EObject *)
     destruct entries as [|e0 es0]; [np_go IH Hd|]. destruct ctx; [apply np_unsup|].
+    match goal with |- context [if ?b then _ else _] => destruct b end; [apply np_unsup|].
     apply each_np. intros c0 st0. apply np_bind.
     + apply obj_entries_np. intros ke ve Hin.
       assert (Hkv : no_del ke = true /\ no_del ve = true).
